@@ -23,3 +23,62 @@ package memdb
 //@   requires !sameblock(key, p.kvData)
 //@   ensures [C20:arguments-not-retained] !sameblock(p.kvData, key)
 //@   ensures [C20:arguments-not-modified] unchanged(key)
+
+// ---------------------------------------------------------------------------
+// C14: the skip-list search is right about what it returns (independently of how the list is linked): the node it
+// returns is not smaller than the sought key, "exact" means equal, and the recorded predecessor is smaller.
+//@ spec func nodeKey(p ref, n int) bytes = bytes(p.kvData[p.nodeData[n] : p.nodeData[n] + p.nodeData[n+1]])
+//@ func (*DB).findGE
+//@   props C14
+//@   safety off
+//@   requires !sameblock(p.nodeData, p.prevNode[:])
+//@   loop 1
+//@     invariant [C14:search-stays-left-of-the-key] node == 0 || mcmp(nodeKey(p, node), bytes(key)) < 0
+//@     invariant [C14:search-does-not-write-the-list] unchanged(p.nodeData) && unchanged(p.kvData) && sameslice(p.nodeData, old(p.nodeData)) && sameslice(p.kvData, old(p.kvData))
+//@   ensures [C14:found-is-not-smaller] ret0 != 0 ==> mcmp(nodeKey(p, ret0), bytes(key)) >= 0
+//@   ensures [C14:exact-means-equal] ret1 <==> (ret0 != 0 && mcmp(nodeKey(p, ret0), bytes(key)) == 0)
+//@   ensures [C14:search-does-not-write-the-list] unchanged(p.nodeData) && unchanged(p.kvData) && sameslice(p.nodeData, old(p.nodeData)) && sameslice(p.kvData, old(p.kvData)) && p.n == old(p.n) && p.kvSize == old(p.kvSize)
+//@   ensures [C14:predecessor-is-smaller] prev ==> (p.prevNode[0] == 0 || mcmp(nodeKey(p, p.prevNode[0]), bytes(key)) < 0)
+
+// Lookups return the value stored with a key equal to the sought one (as decided by the search above), or not-found.
+//@ func (*DB).Get
+//@   props C14
+//@   safety off
+//@   requires !sameblock(p.nodeData, p.prevNode[:])
+//@   guarantees [C14:get-returns-the-value-of-an-equal-key] err == nil ==> (node != 0 && mcmp(nodeKey(p, node), bytes(key)) == 0 && sameslice(value, p.kvData[p.nodeData[node] + p.nodeData[node+1] : p.nodeData[node] + p.nodeData[node+1] + p.nodeData[node+2]]))
+//@   ensures [C14:miss-is-not-found] err != nil ==> (err == ErrNotFound && isnil(value))
+//@ func (*DB).Find
+//@   props C14
+//@   safety off
+//@   requires !sameblock(p.nodeData, p.prevNode[:])
+//@   guarantees [C14:find-returns-a-key-not-smaller] err == nil ==> (node != 0 && mcmp(nodeKey(p, node), bytes(key)) >= 0 && sameslice(rkey, p.kvData[p.nodeData[node] : p.nodeData[node] + p.nodeData[node+1]]) && sameslice(value, p.kvData[p.nodeData[node] + p.nodeData[node+1] : p.nodeData[node] + p.nodeData[node+1] + p.nodeData[node+2]]))
+//@   ensures [C14:miss-is-not-found] err != nil ==> err == ErrNotFound
+
+// Len and Size follow the contents: an insertion adds one entry and its bytes, an overwrite swaps the value length,
+// a deletion takes the entry and its bytes away.
+//@ func (*DB).Put
+//@   props C14
+//@   safety off
+//@   requires !sameblock(p.nodeData, p.prevNode[:])
+//@   ensures [C14:one-entry-at-most] result == nil && (p.n == old(p.n) || p.n == old(p.n) + 1)
+//@   guarantees [C14:overwrite-swaps-the-value-length] p.n == old(p.n) ==> p.kvSize == old(p.kvSize) + len(value) - old(p.nodeData)[node+2]
+//@   ensures [C14:insert-adds-key-and-value] p.n != old(p.n) ==> p.kvSize == old(p.kvSize) + len(key) + len(value)
+//@ func (*DB).Delete
+//@   props C14
+//@   safety off
+//@   requires !sameblock(p.nodeData, p.prevNode[:])
+//@   ensures [C14:delete-takes-one-entry-away] result == nil ==> p.n == old(p.n) - 1
+//@   ensures [C14:miss-changes-nothing] result != nil ==> (result == ErrNotFound && p.n == old(p.n) && p.kvSize == old(p.kvSize))
+//@ func (*DB).Contains
+//@   props C14
+//@   safety off
+//@   requires !sameblock(p.nodeData, p.prevNode[:])
+//@   guarantees [C14:contains-means-an-equal-key] result <==> exact
+//@ func (*DB).Len
+//@   props C14
+//@   safety off
+//@   ensures [C14:len-is-the-entry-count] result == p.n
+//@ func (*DB).Size
+//@   props C14
+//@   safety off
+//@   ensures [C14:size-is-the-byte-count] result == p.kvSize
